@@ -220,7 +220,12 @@ def run_hypothesis(prop, tier, seed, n_examples, shard, collector, shrink_sig=No
             run_state_machine_as_test(Machine, settings=stg)
         except Found:
             pass
-        return
+        if not hasattr(prop, "strategy"):
+            return
+        # a module may have both a state machine and a plain generated part (own budget)
+        n_examples = getattr(prop, "BUDGET_STRATEGY", {}).get(tier, 0)
+        if n_examples <= 0:
+            return
 
     strategy = prop.strategy(tier)
 
